@@ -567,6 +567,39 @@ impl<'tcx> Ex<'tcx> {
                 }
                 J::Null
             }
+            ConstValue::Indirect { .. } => {
+                // constant arrays / tuples of scalars and strings (e.g. `const KEYS: [&str; 3]`)
+                if matches!(ty.kind(), ty::Array(..) | ty::Tuple(..)) {
+                    if let Some(d) = tcx.try_destructure_mir_constant_for_user_output(v, ty) {
+                        let items: Vec<J> = d.fields.iter().map(|(fv, fty)| self.value_j(*fv, *fty)).collect();
+                        return J::Obj(vec![("array", J::Arr(items))]);
+                    }
+                }
+                if let (ty::Ref(_, inner, _), ConstValue::Indirect { alloc_id, offset }) = (ty.kind(), v) {
+                    if inner.is_str() {
+                        if let rustc_middle::mir::interpret::GlobalAlloc::Memory(a) = tcx.global_alloc(alloc_id) {
+                            let a = a.inner();
+                            let psz = tcx.data_layout.pointer_size();
+                            let p = a.read_scalar(&tcx, rustc_middle::mir::interpret::alloc_range(offset, psz), true);
+                            let l = a.read_scalar(&tcx, rustc_middle::mir::interpret::alloc_range(offset + psz, psz), false);
+                            if let (Ok(Scalar::Ptr(ptr, _)), Ok(Scalar::Int(len))) = (p, l) {
+                                let (prov, off) = ptr.into_raw_parts();
+                                if let rustc_middle::mir::interpret::GlobalAlloc::Memory(b) = tcx.global_alloc(prov.alloc_id()) {
+                                    let start = off.bytes() as usize;
+                                    let n = len.to_bits(len.size()) as usize;
+                                    let alloc = b.inner();
+                                    if start + n <= alloc.len() {
+                                        let bytes = alloc.inspect_with_uninit_and_ptr_outside_interpreter(start..start + n);
+                                        return J::Obj(vec![("str", J::Str(String::from_utf8_lossy(bytes).to_string()))]);
+                                    }
+                                }
+                            }
+                        }
+                    }
+                }
+                J::Null
+            }
+            #[allow(unreachable_patterns)]
             _ => J::Null,
         }
     }
